@@ -19,7 +19,12 @@ RULE = ("exhaustive enumeration of every suite id the library lists x every "
         "endpoints and checked on the wire (key-exchange messages, "
         "certificate presence, Finished recomputed with the registered PRF, "
         "records re-opened by the reference receiver with registered cipher/"
-        "key/MAC/tag parameters, ciphertext overhead, accessor names); pairs "
+        "key/MAC/tag parameters - in TLS 1.3 also after a KeyUpdate in both "
+        "directions -, ciphertext overhead, accessor names); every single "
+        "cipher / MAC name shared between two all-version endpoints and "
+        "every session offered again to a server capped at a lower version "
+        "(cache and ticket) must announce a registered (version, suite) "
+        "pair in the ServerHello; pairs "
         "the RFCs do not define are attacked from both roles (rewritten "
         "ClientHello to an all-enabled server, rewritten ServerHello to an "
         "all-enabled client); mismatching credential types must not "
@@ -97,6 +102,30 @@ def explicit(tier, seed):
     for sid in named_only:
         for v in ((3, 1), (3, 3)):
             yield {"kind": "unsupported", "suite": sid, "ver": list(v)}
+    from tlslite import handshakesettings as hs
+    for cipher in list(hs.ALL_CIPHER_NAMES) + [None]:
+        for mac in [None] + list(hs.ALL_MAC_NAMES):
+            if cipher is None and mac is None:
+                continue
+            for who in "bcs":
+                for cred in ("rsa", "ecdsa"):
+                    for minv in ((3, 0), (3, 3)):
+                        yield {"kind": "mixed", "cipher": cipher, "mac": mac,
+                               "who": who, "cred": cred, "minv": list(minv)}
+    for sid in neg:
+        s = iana.SUITES[sid]
+        if s.tls13 or s.auth not in ("rsa", "ecdsa", "dsa", None):
+            continue
+        for v1 in VERSIONS[1:4]:
+            if s.defined_in(v1) is not True:
+                continue
+            for v2 in VERSIONS[:4]:
+                if v2 >= v1:
+                    continue
+                for tickets in (False, True):
+                    yield {"kind": "resume_lower", "suite": sid,
+                           "v1": list(v1), "v2": list(v2),
+                           "tickets": tickets}
 
 
 def cred_family(name):
@@ -118,7 +147,99 @@ def check(case):
         return check_undef_server(case)
     if kind == "undef_client":
         return check_undef_client(case)
+    if kind == "mixed":
+        return check_mixed(case)
+    if kind == "resume_lower":
+        return check_resume_lower(case)
     raise HarnessError(kind)
+
+
+def wire_pair(p):
+    """(version, suite) the server announced on the wire"""
+    msgs, _, _ = tap.plaintext_flight(p.link.wire("s"))
+    sh = [tap.parse_server_hello(b) for t, b in msgs if t == 2]
+    sh = [x for x in sh if not x["hrr"]]
+    if not sh:
+        return None
+    return tuple(sh[-1]["version"]), sh[-1]["suite"]
+
+
+def judge_pair(p, labels, what):
+    wp = wire_pair(p)
+    if wp is None:
+        return good(nt=False, labels=labels + ["no-server-hello"])
+    ver, sid = wp
+    su = iana.SUITES.get(sid)
+    labels.append("sh=%s" % sc.VERNAME.get(ver, ver))
+    if su is None or su.defined_in(ver) is False:
+        return bad("undefined-pair-on-wire:%s:%s" % (
+            what, sc.VERNAME.get(ver, ver)),
+            "ServerHello announces %s with suite %04x (%s)" % (
+                sc.VERNAME.get(ver, ver), sid, su.name if su else "?"),
+            labels=labels)
+    for conn in (p.c, p.s):
+        if conn.session is not None and conn.session.cipherSuite and \
+                p.both_ok:
+            s2 = iana.SUITES.get(conn.session.cipherSuite)
+            if s2 is None or s2.defined_in(tuple(conn.version)) is False:
+                return bad("undefined-pair-negotiated:%s" % what,
+                           "%04x at %r" % (conn.session.cipherSuite,
+                                           conn.version), labels=labels)
+    return good(labels=labels + ["completed" if p.both_ok else "failed"])
+
+
+def check_mixed(case):
+    """Both ends speak every version but share only the named cipher / MAC:
+    whatever the server announces must be a registered combination."""
+    labels = ["mixed", "cipher=%s" % case["cipher"], "mac=%s" % case["mac"]]
+    kw = everything(tuple(case["minv"]), (3, 4))
+    if case["cipher"]:
+        kw["cipherNames"] = [case["cipher"]]
+    if case["mac"]:
+        kw["macNames"] = [case["mac"]]
+    who = case["who"]
+    ckw = kw if who in "cb" else everything(tuple(case["minv"]), (3, 4))
+    skw = kw if who in "sb" else everything(tuple(case["minv"]), (3, 4))
+    DET.reseed("C20mixed", case["cipher"], case["mac"], who)
+    p = sc.connect({"settings": sc.mk_settings(**ckw)},
+                   {"cred": case["cred"], "settings": sc.mk_settings(**skw)})
+    return judge_pair(p, labels, "mixed")
+
+
+def check_resume_lower(case):
+    """Session negotiated with suite S at version v1, offered again to a
+    server (same cache / ticket key) that now stops at v2 < v1."""
+    sid, v1, v2 = case["suite"], tuple(case["v1"]), tuple(case["v2"])
+    s = iana.SUITES[sid]
+    labels = ["resume_lower", "v1=" + sc.VERNAME[v1], "v2=" + sc.VERNAME[v2]]
+    from tlslite.api import SessionCache
+    cache = SessionCache()
+    DET.reseed("C20rl", sid, v1, v2)
+    copts, sopts = sc.pin(s, v1, etm=False)
+    sopts["sessionCache"] = cache
+    if case.get("tickets"):
+        sopts["settings"].ticketKeys = [bytearray(b"r" * 32)]
+    p0 = sc.connect(copts, sopts)
+    if not p0.both_ok:
+        return good(nt=False, labels=labels + ["first-failed"])
+    sc.do_write(p0, "s", b"x")
+    sc.read_all(p0, "c")
+    c2, s2 = sc.pin(s, v1, etm=False)
+    for o in (c2, s2):
+        o["settings"].minVersion = (3, 0)
+        o["settings"].macNames = list(everything()["macNames"])
+    s2["settings"].maxVersion = v2
+    s2["sessionCache"] = cache
+    if case.get("tickets"):
+        s2["settings"].ticketKeys = [bytearray(b"r" * 32)]
+    c2["session"] = p0.c.session
+    try:
+        p = sc.connect(c2, s2)
+    except ValueError:
+        return good(nt=False, labels=labels + ["session-refused-by-api"])
+    if isinstance(p.co.exc, ValueError):
+        return good(nt=False, labels=labels + ["session-refused-by-api"])
+    return judge_pair(p, labels, "resumption")
 
 
 # ---------------------------------------------------------------------------
@@ -187,6 +308,27 @@ def check_defined(case):
     rv = tap.RefView(p, suite=s, version=v)
     rv.follow("c")
     rv.follow("s")
+    if v == (3, 4) and not rv.errors:
+        # the next traffic generation must come from the suite's hash too
+        from vlib.driver import drive
+        for side in "cs":
+            drive({side: p.conn(side).send_keyupdate_request(1)}, p.link,
+                  on_stall="leave")
+        sc.read_all(p, "s")
+        sc.read_all(p, "c")
+        more_c, more_s = b"after-ku-c" * 7, b"after-ku-s" * 9
+        sc.do_write(p, "c", more_c)
+        sc.do_write(p, "s", more_s)
+        a2, _ = sc.read_all(p, "s")
+        b2, _ = sc.read_all(p, "c")
+        if a2 != more_c or b2 != more_s:
+            return bad("probe-data-after-keyupdate:%04x" % sid, "",
+                       labels=labels)
+        msg_c += more_c
+        msg_s += more_s
+        rv.follow("c")
+        rv.follow("s")
+        labels.append("keyupdate")
     if rv.errors:
         return bad("registered-params-do-not-open-records:%04x:%s" % (
             sid, vn), rv.errors[0], labels=labels)
